@@ -164,7 +164,7 @@ func main() {
 		}
 		rs := simrt.Mix(base, uint64(idx))
 		t := simrt.NewTape(rs)
-		rc := &core.RunCtx{T: t, Tier: *tier, Config: *config, Idx: idx, Race: *race}
+		rc := &core.RunCtx{T: t, Tier: *tier, Config: *config, Idx: idx, Seed: *seed, Race: *race}
 		res := h.Run(rc)
 		recorded := t.Recorded() // before any shrinking reuses the tape buffer
 		agg.Runs++
@@ -362,7 +362,7 @@ func doReplay(path string, race bool, verbose bool) int {
 		return simrt.InfraExit
 	}
 	fmt.Printf("SEED replay harness=%s config=%s seed=%d run=%d tape_len=%d\n", rp.Harness, rp.Config, rp.Seed, rp.Idx, len(rp.Tape))
-	rc := &core.RunCtx{Tier: rp.Tier, Config: rp.Config, Idx: rp.Idx, Race: race, Replay: true}
+	rc := &core.RunCtx{Tier: rp.Tier, Config: rp.Config, Idx: rp.Idx, Seed: rp.Seed, Race: race, Replay: true}
 	res, v, _ := runTape(h, rc, rp.Tape, rp.Violation.Class())
 	if verbose {
 		for _, l := range res.Trace {
